@@ -243,7 +243,7 @@ def split_histories(lines, is_reset):
 
 
 def default_is_reset(line):
-    return line.startswith('{"e":"reset"') or '"e":"reset"' in line[:60]
+    return '"e":"reset"' in line
 
 
 def validate_traces(ctx, module, cfg, trace_path, label, is_reset=default_is_reset, max_rejects=8, chunk=4000,
